@@ -1,3 +1,172 @@
+(* C12 — tables index like nested dictionaries over their field domains.
+
+   Model: model/PyVal.v (Python values, `pyeq` = Python ==), model/Table.v (mirror of
+   TableIndex._array_index/_updated_index, Table/ProbabilityTable/StateTable.__getitem__, get, keys,
+   items, len, action_dist, and numpy's ndarray.__getitem__ for the indices these produce).
+   The functions below are the very ones the correspondence harness runs by vm_compute.
+
+   Vocabulary (theory/TableTheory.v):
+     wf t                     t has >= 1 field, every domain ==-duplicate-free and hashable
+     keys_at ks fs ps         k_i is a key of the i-th field of fs, found at position p_i
+                              (dom_index k_i dom_i = Ok p_i: hashable and == to the p_i-th element)
+     not_outer_element t s    s is not (== to) an element of the outermost domain
+     plainkey k               k is not Ellipsis and not a slice
+     selects t r ps           r is the scalar cell at ps when ps fixes every field, otherwise the
+                              sub-table over the remaining fields with cell(out) = cell t (ps ++ out)
+                              (class: TableDistribution for the last axis of a probability table)
+     is_row_dist t r ps f     r is a TableDistribution over field f: support = domain of f,
+                              prob(j-th event) = cell t (ps ++ [j]), prob(foreign scalar) = default
+   All theorems hold for any number of fields and any domain sizes.                               *)
+From Coq Require Import ZArith List Bool.
 From MSDM Require Import model.PyVal model.Table theory.TableTheory.
-Theorem c12_placeholder : True. Proof. exact placeholder_c12. Qed.
-Print Assumptions c12_placeholder.
+Import ListNotations.
+
+(* one key per field -> exactly the cell at the keys' positions *)
+Theorem full_key_cell : forall t ks ps, wf t -> length ks = length (tix t) ->
+  forallb plainkey ks = true -> keys_at ks (tix t) ps -> not_outer_element t (PTuple ks) ->
+  getitem t (PTuple ks) = Ok (GScalar (tcell t ps)).
+Proof. exact full_key_cell_thm. Qed.
+Print Assumptions full_key_cell.
+
+(* keys for a prefix of the fields -> the sub-table at those positions *)
+Theorem prefix_key_subtable : forall t ks ps, wf t -> ks <> [] -> forallb plainkey ks = true ->
+  keys_at ks (tix t) ps -> not_outer_element t (PTuple ks) ->
+  selects t (getitem t (PTuple ks)) ps.
+Proof. exact prefix_key_thm. Qed.
+Print Assumptions prefix_key_subtable.
+
+(* a selector that IS an element of the outermost domain selects that element, whatever else it
+   could mean (a tuple of field keys, a whole domain, ...) *)
+Theorem outer_element_wins : forall t sel i, wf t ->
+  dom_index sel (dom0 (tix t)) = Ok i -> selects t (getitem t sel) [i].
+Proof. exact outer_element_wins_thm. Qed.
+Print Assumptions outer_element_wins.
+
+(* t[k1][k2]...[kn] = t[(k1,...,kn)] = the cell *)
+Theorem nested_eq_full : forall t ks ps, wf t -> length ks = length (tix t) ->
+  forallb plainkey ks = true -> keys_at ks (tix t) ps -> not_outer_element t (PTuple ks) ->
+  chain t ks = getitem t (PTuple ks) /\ chain t ks = Ok (GScalar (tcell t ps)).
+Proof. exact nested_eq_full_thm. Qed.
+Print Assumptions nested_eq_full.
+
+(* nested indexing needs no side condition at all: every step hits the outermost domain first *)
+Theorem nested_chain : forall ks t ps, wf t -> ks <> [] -> keys_at ks (tix t) ps ->
+  match skipn (length ps) (tix t) with
+  | [] => chain t ks = Ok (GScalar (tcell t ps))
+  | rest => exists t', chain t ks = Ok (GTable t') /\ tix t' = rest /\
+                       forall out, tcell t' out = tcell t (ps ++ out)
+  end.
+Proof. exact nested_chain_thm. Qed.
+Print Assumptions nested_chain.
+
+(* keys / len / items run over the outermost domain in order; items pairs the j-th key with t[key],
+   which is the j-th slice *)
+Theorem keys_items_len : forall t, wf t ->
+  keys t = dom0 (tix t) /\ len t = length (dom0 (tix t)) /\
+  items t = map (fun k => (k, getitem t k)) (dom0 (tix t)) /\
+  forall j, j < len t -> selects t (getitem t (nth j (keys t) PNone)) [j].
+Proof. exact keys_items_len_thm. Qed.
+Print Assumptions keys_items_len.
+
+(* a non-empty list of distinct outer keys -> the table restricted to those keys in the given order,
+   other fields untouched (msdm returns the table itself when the list is the whole domain in order).
+   NOT covered: the empty list (outer_list_empty_self: msdm returns the whole table) and lists with
+   repeated keys (ValueError from Table._validate_table) *)
+Theorem outer_list_subtable : forall t ks js, wf t -> ks <> [] -> forallb plainkey ks = true ->
+  index_into_domain ks (dom0 (tix t)) = Ok js -> NoDup js ->
+  exists t', (getitem t (PList ks) = Ok (GTable t') \/ (getitem t (PList ks) = Ok GSelf /\ t' = t)) /\
+     tindex_eqb (tix t') (match tix t with f :: fs => mkField (fname f) (restrict (fdom f) js) :: fs | [] => [] end) = true /\
+     forall j rest, j < length js -> tcell t' (j :: rest) = tcell t (nth j js 0 :: rest).
+Proof. exact outer_list_subtable_thm. Qed.
+Print Assumptions outer_list_subtable.
+
+Theorem outer_list_empty_returns_whole_table : forall t, getitem t (PList []) = Ok GSelf.
+Proof. exact outer_list_empty_self. Qed.
+Print Assumptions outer_list_empty_returns_whole_table.
+
+(* t[:] and t[...] are t; any other slice is a SliceError *)
+Theorem slice_identity : forall t, plain_dom (dom0 (tix t)) ->
+  getitem t (PSlice true) = Ok GSelf /\ getitem t PEllipsis = Ok GSelf /\
+  getitem t (PSlice false) = Err ESlice.
+Proof. exact slice_identity_thm. Qed.
+Print Assumptions slice_identity.
+
+Theorem slice_identity_wrapped : forall t s, (s = PSlice true \/ s = PEllipsis) ->
+  not_outer_element t (PTuple [s]) ->
+  getitem t (PTuple [s]) = Ok GSelf /\ getitem t (PList [s]) = Ok GSelf.
+Proof. exact slice_identity_wrapped_thm. Qed.
+Print Assumptions slice_identity_wrapped.
+
+Theorem slice_tuple_identity : forall t m, m <= length (tix t) ->
+  Forall (fun f => plain_dom (fdom f)) (tix t) ->
+  not_outer_element t (PTuple (repeat (PSlice true) m)) ->
+  getitem t (PTuple (repeat (PSlice true) m)) = Ok GSelf.
+Proof. exact slice_tuple_identity_thm. Qed.
+Print Assumptions slice_tuple_identity.
+
+(* a row of a probability table is the distribution whose events are the last domain and whose
+   probabilities are the row's entries *)
+Theorem prob_row_dist : forall t ks ps f, wf t -> cls_prob (tcls t) = true ->
+  ks <> [] -> forallb plainkey ks = true -> keys_at ks (tix t) ps ->
+  skipn (length ps) (tix t) = [f] -> not_outer_element t (PTuple ks) ->
+  is_row_dist t (getitem t (PTuple ks)) ps f.
+Proof. exact prob_row_dist_thm. Qed.
+Print Assumptions prob_row_dist.
+
+(* TabularPolicy.action_dist(s) *)
+Theorem policy_action_dist : forall t fs fa s i, wf t -> cls_prob (tcls t) = true ->
+  tix t = [fs; fa] -> dom_index s (fdom fs) = Ok i ->
+  is_row_dist t (action_dist t s) [i] fa.
+Proof. exact policy_action_dist_thm. Qed.
+Print Assumptions policy_action_dist.
+
+(* foreign keys raise, and which error: never a value *)
+Theorem foreign_key_raises_scalar : forall t k, is_seqval k = false -> plainkey k = true ->
+  index_of k (dom0 (tix t)) = None ->
+  getitem_raw t k = Err EKey /\
+  getitem t k = Err (if cls_state (tcls t) then EStateAction else EKey) /\
+  table_get t k = (if cls_state (tcls t) then Err EStateAction else Ok None).
+Proof. exact foreign_scalar_raises_thm. Qed.
+Print Assumptions foreign_key_raises_scalar.
+
+Theorem foreign_key_raises_tuple : forall t ks ps k rest, wf t ->
+  forallb plainkey (ks ++ k :: rest) = true -> keys_at ks (tix t) ps ->
+  length (ks ++ k :: rest) <= length (tix t) ->
+  is_seqval k = false ->
+  index_of k (fdom (nth (length ps) (tix t) (mkField PNone []))) = None ->
+  not_outer_element t (PTuple (ks ++ k :: rest)) ->
+  getitem_raw t (PTuple (ks ++ k :: rest)) = Err EIndex /\
+  getitem t (PTuple (ks ++ k :: rest)) = Err (if cls_state (tcls t) then EStateAction else EIndex) /\
+  table_get t (PTuple (ks ++ k :: rest)) = Err (if cls_state (tcls t) then EStateAction else EIndex).
+Proof. exact foreign_tuple_raises_thm. Qed.
+Print Assumptions foreign_key_raises_tuple.
+
+Theorem foreign_key_raises_too_many : forall t ks, forallb plainkey ks = true ->
+  length (tix t) < length ks -> not_outer_element t (PTuple ks) ->
+  getitem t (PTuple ks) = Err (if cls_state (tcls t) then EStateAction else EIndexSize).
+Proof. exact too_many_keys_raises_thm. Qed.
+Print Assumptions foreign_key_raises_too_many.
+
+Theorem foreign_key_raises_list : forall t ks k rest, forallb plainkey (ks ++ k :: rest) = true ->
+  index_of k (dom0 (tix t)) = None ->
+  getitem t (PList (ks ++ k :: rest)) = Err (if cls_state (tcls t) then EStateAction else EDomain).
+Proof. exact foreign_list_raises_thm. Qed.
+Print Assumptions foreign_key_raises_list.
+
+(* the domaintuple quirk: a full key passed as a `domaintuple` is first looked up, component by
+   component, in the OUTERMOST domain and raises DomainError if one component is not an outer key,
+   although the same key as a plain tuple returns the cell (full_key_cell) *)
+Theorem domaintuple_key_quirk : forall t ks k rest, forallb plainkey (ks ++ k :: rest) = true ->
+  not_outer_element t (PDomTuple (ks ++ k :: rest)) ->
+  index_of k (dom0 (tix t)) = None ->
+  getitem_raw t (PDomTuple (ks ++ k :: rest)) = Err EDomain.
+Proof. exact domtuple_key_quirk_thm. Qed.
+Print Assumptions domaintuple_key_quirk.
+
+(* Python == on the modelled universe is reflexive and symmetric (used for positions in domains) *)
+Theorem pyeq_reflexive : forall v, pyeq v v = true.
+Proof. exact pyeq_refl. Qed.
+Print Assumptions pyeq_reflexive.
+Theorem pyeq_symmetric : forall a b, pyeq a b = pyeq b a.
+Proof. exact pyeq_sym. Qed.
+Print Assumptions pyeq_symmetric.
